@@ -124,11 +124,11 @@ static void syncSolver(State &s) {
     if (k < solStack.size()) { G->pop(solStack.size() - k); solStack.resize(k); }
     for (; k < s.pc.size(); ++k) { G->push(); G->add(s.pc[k].ex()); solStack.push_back(s.pc[k].a); }
 }
-static void dumpQuery(State &s, const z3::expr &extra) {
-    if (O.dumpDir.empty()) return;
+static void dumpQuery(State &s, const z3::expr &extra, const char *verdict = "unknown") {
+    if (O.dumpDir.empty() || ST.dumped >= 40) return;
     z3::solver tmp(Z); for (auto &a : baseAxioms) tmp.add(a.ex()); for (auto &p : s.pc) tmp.add(p.ex()); tmp.add(extra);
     std::ofstream f(O.dumpDir + "/q" + std::to_string(getpid()) + "_" + std::to_string(ST.dumped++) + ".smt2");
-    f << tmp.to_smt2();
+    f << "; z3-verdict: " << verdict << "\n" << tmp.to_smt2();
 }
 // check pc && extra. returns sat/unsat; unknown => EngineError (inconclusive)
 static bool checkSat(State &s, const z3::expr &extra, std::shared_ptr<z3::model> *mdl = nullptr) {
@@ -141,7 +141,7 @@ static bool checkSat(State &s, const z3::expr &extra, std::shared_ptr<z3::model>
     std::string why; if (r == z3::unknown) why = G->reason_unknown();
     G->pop();
     ST.solverSec += std::chrono::duration<double>(std::chrono::steady_clock::now() - t0).count();
-    if (O.dumpEvery && ST.queries % O.dumpEvery == 0) dumpQuery(s, extra);
+    if (O.dumpEvery && ST.queries % O.dumpEvery == 0) dumpQuery(s, extra, r == z3::sat ? "sat" : r == z3::unsat ? "unsat" : "unknown");
     if (r == z3::unknown) { dumpQuery(s, extra); throw EngineError{"solver returned unknown: " + why}; }
     return r == z3::sat;
 }
@@ -661,14 +661,14 @@ static void tiBases(State &s, uint64_t ti, std::vector<std::pair<uint64_t, int64
     if (vp == gaddr("_ZTVN10__cxxabiv120__si_class_type_infoE")) out.push_back({loadBytes(s, ti + 16, 8, 64).c, 0});
     else if (vp == gaddr("_ZTVN10__cxxabiv121__vmi_class_type_infoE")) {
         uint64_t n = loadBytes(s, ti + 20, 4, 32).c;
-        for (uint64_t i = 0; i < n; i++) { uint64_t b = loadBytes(s, ti + 24 + 16 * i, 8, 64).c; int64_t of = (int64_t)loadBytes(s, ti + 32 + 16 * i, 8, 64).c; if (of & 1) throw EngineError{"virtual base in RTTI walk"}; out.push_back({b, of >> 8}); }
+        for (uint64_t i = 0; i < n; i++) { uint64_t b = loadBytes(s, ti + 24 + 16 * i, 8, 64).c; int64_t of = (int64_t)loadBytes(s, ti + 32 + 16 * i, 8, 64).c; if (of & 1) { out.push_back({b, INT64_MIN}); continue; } out.push_back({b, of >> 8}); }
     }
 }
 static bool derivesFrom(State &s, uint64_t ti, uint64_t target, int64_t &off, int depth = 0) {
     if (ti == target) { off = 0; return true; }
     if (depth > 16) return false;
     std::vector<std::pair<uint64_t, int64_t>> bs; tiBases(s, ti, bs);
-    for (auto &b : bs) { int64_t o2; if (derivesFrom(s, b.first, target, o2, depth + 1)) { off = b.second + o2; return true; } }
+    for (auto &b : bs) { int64_t o2; if (derivesFrom(s, b.first, target, o2, depth + 1)) { if (b.second == INT64_MIN) throw EngineError{"cast or catch through a virtual base in RTTI walk"}; off = b.second + o2; return true; } }
     return false;
 }
 static std::vector<uint64_t> tiSelectors;
@@ -721,7 +721,7 @@ static std::vector<int> fixedSched; static bool haveFixedSched = false;
 enum BI { B_NONE = 0, B_MALLOC, B_CALLOC, B_REALLOC, B_FREE, B_GUARD_ACQ, B_GUARD_REL, B_ATEXIT, B_ERRNO, B_NOOP, B_NOOP_RET0, B_NOOP_RET1, B_NOOP_RETARG0,
     B_ALLOC_EXN, B_FREE_EXN, B_THROW, B_RETHROW, B_BEGIN_CATCH, B_END_CATCH, B_GET_EXN_PTR, B_TYPEID_FOR, B_DYNCAST, B_TERMINATE, B_PUREVIRT,
     B_ABORT, B_EXIT, B_XASSERT, B_ASSERT_FAIL, B_FATAL,
-    B_ND8, B_ND16, B_ND32, B_ND64, B_NDBUF, B_ASSUME, B_ASSERT, B_OBSERVE, B_REACH, B_SPAWN, B_JOIN, B_CONCRETIZE, B_YIELD, B_CHOOSE,
+    B_ND8, B_ND16, B_ND32, B_ND64, B_NDBUF, B_ASSUME, B_ASSERT, B_OBSERVE, B_REACH, B_SPAWN, B_JOIN, B_CONCRETIZE, B_YIELD, B_CHOOSE, B_LOADREL,
     B_MEMCPY, B_MEMMOVE, B_MEMSET, B_VASTART, B_VAEND, B_VACOPY, B_INTRIN_SKIP, B_EXPECT, B_OBJSIZE, B_ISCONST,
     B_UMIN, B_UMAX, B_SMIN, B_SMAX, B_ABS, B_CTLZ, B_CTTZ, B_CTPOP, B_BSWAP, B_FSHL, B_FSHR, B_USUBSAT, B_UADDSAT, B_OVF, B_ASSUME_INTRIN, B_TRAP,
     B_FABS, B_FLOOR, B_CEIL, B_SQRT, B_STACKSAVE, B_STACKRESTORE, B_UNCAUGHT, B_GETENV, B_PTRMASK, B_FMULADD, B_POW, B_LOG, B_EXP, B_FMOD, B_ROUND, B_TRUNC_F };
@@ -752,6 +752,7 @@ static int classify(const Function *F) {
     if (startsWith(n, "llvm.")) {
         if (startsWith(n, "llvm.lifetime") || startsWith(n, "llvm.dbg") || startsWith(n, "llvm.experimental.noalias") || startsWith(n, "llvm.invariant") || startsWith(n, "llvm.prefetch") || startsWith(n, "llvm.donothing") || startsWith(n, "llvm.var.annotation")) return B_INTRIN_SKIP;
         if (startsWith(n, "llvm.memcpy")) return B_MEMCPY; if (startsWith(n, "llvm.memmove")) return B_MEMMOVE; if (startsWith(n, "llvm.memset")) return B_MEMSET;
+        if (startsWith(n, "llvm.load.relative")) return B_LOADREL;
         if (startsWith(n, "llvm.expect")) return B_EXPECT; if (startsWith(n, "llvm.objectsize")) return B_OBJSIZE; if (startsWith(n, "llvm.is.constant")) return B_ISCONST;
         if (startsWith(n, "llvm.umin")) return B_UMIN; if (startsWith(n, "llvm.umax")) return B_UMAX; if (startsWith(n, "llvm.smin")) return B_SMIN; if (startsWith(n, "llvm.smax")) return B_SMAX;
         if (startsWith(n, "llvm.abs")) return B_ABS; if (startsWith(n, "llvm.ctlz")) return B_CTLZ; if (startsWith(n, "llvm.cttz")) return B_CTTZ; if (startsWith(n, "llvm.ctpop")) return B_CTPOP;
@@ -853,6 +854,8 @@ static bool handleBuiltin(State &s, Frame &f, CallBase *cb, Function *callee) {
         s.threads.push_back(std::move(t)); return ret(Val::C(32, s.threads.size() - 1)); }
     case B_JOIN: { finishCall(s, f, cb); s.joining = true; schedule(s, true); return true; }
     case B_YIELD: return done();
+    case B_LOADREL: { // llvm.load.relative(ptr, offset): ptr + sext(load i32 at ptr+offset)
+        Val p = arg(0); Val off = arg(1); Val at = binop(s, Instruction::Add, p, off.w == 64 ? off : sextTo(off, 64)); Val rel = loadVal(s, at, 4, 32); return ret(binop(s, Instruction::Add, p, sextTo(rel, 64))); }
     case B_CHOOSE: { // nondeterministic choice among 0..n-1 without creating a symbolic variable (keeps thread-mode states concrete and hashable)
         uint64_t n = arg(0).c; std::string nm = readCStr(s, arg(1).c); if (arg(0).sym() || n == 0 || n > 64) throw EngineError{"vf_choose needs a concrete count in 1..64"};
         if (concreteMode) { if (s.concIdx >= concreteInputs.size()) throw EngineError{"concrete input vector exhausted"}; uint64_t v = strtoull(concreteInputs[s.concIdx++].c_str(), nullptr, 0); s.inputs.push_back({nm, 32, Ast(Z.bv_val((unsigned)(v % n), 32))}); return ret(Val::C(32, v % n)); }
